@@ -396,6 +396,32 @@ def parquet_cases():
                     ('nothing_emitted_unless_the_writer_fails', Or(q.trace == T0, last_is_err(q)))]
     out.append(WriterOnNext())
 
+    class WriterAtSubscribe(FnCase):
+        """the parquet writer exists from subscription on (so a source of zero rows still leaves a valid, empty parquet file) and is closed exactly
+        once at completion, before the completion is forwarded"""
+        name = 'parquet._dump_parquet/subscription_and_completion'
+        def setup(self, eng, p):
+            self.eng = eng
+            self.fobj = Host('opaque', name='fileobj')
+            q, hs, obs = build_plain(eng, p, P, '_dump_parquet', [self.fobj, schema, rgs, 'snappy', None, Host('opaque', name='open_obj')])
+            self.calls_at_subscription = list(q.calls)
+            q.trace = T0; q.calls = []; q.pc = []; self.path = q
+            return hs['on_completed'], [], {}
+        def on_exception(self, q):
+            return BoolVal(isinstance(q.exc, ExcV) and q.exc.cls == 'LibError' and str(q.exc.origin).endswith('.close'))
+        def ensures(self, q, ret):
+            made = [c for c in self.calls_at_subscription if 'ParquetWriter' in c[0]]
+            closes = [c for c in q.calls if c[0].endswith('.close')]
+            return [('writer_created_at_subscription', BoolVal(len(made) == 1)),
+                    ('writer_created_on_the_given_file_and_schema', And(made[0][1][0] == self.eng.to_val(q, self.fobj), made[0][1][1] == Const('schema', Val)) if len(made) == 1 and len(made[0][1]) >= 2 else BoolVal(False)),
+                    ('writer_closed_once_then_completion_forwarded', And(BoolVal(len(closes) == 1), q.trace == Concat(T0, Unit(em(OUT, Ev.Done)))))]
+    def _pq_e2e(self=None):
+        from ..bounded import io as bio
+        from ..bounded.mux import first_new_failure
+        return first_new_failure(bio.check_c20({}))
+    WriterAtSubscribe.e2e = _pq_e2e; WriterOnNext.e2e = _pq_e2e
+    out.append(WriterAtSubscribe())
+
     def dump_term(self, q, chain):
         ns = names(chain)
         want = ['scan', 'filter', 'map', 'map', '_dump_parquet']
